@@ -361,7 +361,7 @@ fn step<R, F: FnOnce() -> R>(cx: &mut Cx, what: &str, state: &str, scen: &str, f
 	}
 }
 
-fn life_cycle(cx: &mut Cx, work: &str, name: &str, n_trunk: u64, style: &str, hs: (u8, u8, u8, u8)) {
+fn life_cycle(cx: &mut Cx, work: &str, name: &str, n_trunk: u64, style: &str, hs: (u8, u8, u8, u8)) -> Option<(Kit, Vec<BlockHeader>, Vec<Probe>, BlockHeader)> {
 	let t0 = Instant::now();
 	let mut kit = Kit::new(&format!("{}/src_{}", work, name));
 	let mut rng2 = Rng::new(cx.rng.next());
@@ -371,7 +371,7 @@ fn life_cycle(cx: &mut Cx, work: &str, name: &str, n_trunk: u64, style: &str, hs
 		Ok(a) if a.height > 0 => a,
 		_ => {
 			cx.out.raw(&format!("#STAT deslife {}: no archive header above genesis, scenario skipped", name));
-			return;
+			return None;
 		}
 	};
 	let n_out = pmmr::n_leaves(archive.output_mmr_size);
@@ -385,7 +385,7 @@ fn life_cycle(cx: &mut Cx, work: &str, name: &str, n_trunk: u64, style: &str, hs
 	note_call("harness: building probes".to_string());
 	if r != "ok" {
 		cx.out.raw(&format!("#STAT deslife {}: header sync failed ({}), scenario skipped", name, r));
-		return;
+		return None;
 	}
 	let ah = dest.c().txhashset_archive_header_header_only().unwrap();
 	let heights = [hs.0, hs.1, hs.2, hs.3];
@@ -490,6 +490,97 @@ fn life_cycle(cx: &mut Cx, work: &str, name: &str, n_trunk: u64, style: &str, hs
 
 	cx.out.raw(&format!("#STAT deslife scenario {} done in {} ms", name, t0.elapsed().as_millis()));
 	let _ = Arc::strong_count(&deseg);
+	drop(segmenter);
+	Some((kit, headers, probes, ah))
+}
+
+/// the bitmap phase with SEVERAL bitmap segments without paying for a chain of more than 1024 outputs:
+/// an archive header (of the synced header chain) whose `output_mmr_size` / `output_root` are those of a
+/// bitmap accumulator built here over `n_out` outputs (3 chunks at segment height 0 = 3 bitmap segments).
+/// The bitmap segments are genuine for that header; the other trees get the segments of the real chain.
+fn fabricated_bitmap_life(cx: &mut Cx, work: &str, kit: &Kit, headers: &[BlockHeader], foreign: &[Probe], ah: &BlockHeader, n_out: u64, hs: (u8, u8, u8, u8)) {
+	use grin_chain::txhashset::BitmapAccumulator;
+	use grin_core::ser::PMMRIndexHashable;
+	let t0 = Instant::now();
+	let mut unspent: Vec<u64> = (0..n_out).filter(|_| cx.rng.chance(2, 5)).collect();
+	if unspent.last() != Some(&(n_out - 1)) {
+		unspent.push(n_out - 1);
+	}
+	let mut acc = BitmapAccumulator::new();
+	acc.init(unspent.iter().cloned(), n_out).unwrap();
+	let bitmap_root = acc.root();
+	let output_pmmr_root = Hash::from_vec(&cx.rng.bytes(32));
+	let out_size = pmmr::insertion_to_pmmr_index(n_out);
+	let mut hdr = ah.clone();
+	hdr.output_mmr_size = out_size;
+	hdr.output_root = (output_pmmr_root, bitmap_root).hash_with_index(out_size);
+	let n_chunks = (n_out + 1023) / 1024;
+	let n_bm = (n_chunks + (1u64 << hs.0) - 1) >> hs.0;
+	let scen = format!("fabricated bitmap: {} outputs, {} chunks, {} bitmap segments of height {}", n_out, n_chunks, n_bm, hs.0);
+	let dest = Subject::new(&format!("{}/dst_fab_{}", work, n_out), &kit.genesis);
+	let _ = dest.sync_headers(headers);
+	set_segment_heights(Some(hs));
+	let made = dest.c().desegmenter(&hdr).ok().and_then(|a| a.read().as_ref().cloned());
+	set_segment_heights(None);
+	let mut d = match made {
+		Some(d) => d,
+		None => return,
+	};
+	let mmr = acc.readonly_pmmr();
+	let bm_seg = |h: u8, idx: u64| -> Option<Seg> { Segment::<BitmapChunk>::from_pmmr(SegmentIdentifier { height: h, idx }, &mmr, false).ok().map(|s| Seg::Bitmap(s, output_pmmr_root)) };
+	// probes: bitmap segments genuine for THIS header (+ garbage of them, other heights), the real chain's segments for the other trees
+	let mut probes: Vec<Probe> = vec![];
+	for idx in 0..n_bm {
+		if let Some(s) = bm_seg(hs.0, idx) {
+			for g in garbage_of(&mut cx.rng, &s, 3) {
+				probes.push(Probe { kind: "garbage", seg: g });
+			}
+			probes.push(Probe { kind: "genuine", seg: s });
+		}
+	}
+	for h in [hs.0 + 1, hs.0 + 2, 9] {
+		if let Some(s) = bm_seg(h, 0) {
+			probes.push(Probe { kind: "other-height", seg: s });
+		}
+	}
+	for p in foreign {
+		if p.seg.tree() != 0 && p.kind != "other-height" {
+			probes.push(Probe { kind: "foreign", seg: p.seg.clone() });
+		} else if p.seg.tree() != 0 {
+			probes.push(Probe { kind: "other-height", seg: p.seg.clone() });
+		}
+	}
+	cx.out.raw(&format!("#STAT deslife scenario {}: {} probes per state", scen, probes.len()));
+	probe_state(cx, &d, "fresh", &probes, &scen);
+	for idx in 0..n_bm {
+		if let Some(s) = bm_seg(hs.0, idx) {
+			match step(cx, "add_bitmap_segment (genuine)", "walk", &scen, || add(&mut d, s)) {
+				Some(Err(e)) => {
+					cx.fails += 1;
+					cx.out.raw(&format!("#ORACLE-FAIL C11 desegmenter-walk genuine bitmap segment {} of the fabricated header refused: {} ({})", idx, error_class(&e), scen));
+				}
+				_ => {}
+			}
+		}
+		if idx + 1 < n_bm {
+			probe_state(cx, &d, &format!("{} of {} bitmap segments cached", idx + 1, n_bm), &probes, &scen);
+		}
+		let _ = step(cx, "apply_next_segments", "bitmap phase", &scen, || d.apply_next_segments());
+		if idx + 1 < n_bm {
+			probe_state(cx, &d, &format!("{} of {} bitmap segments applied", idx + 1, n_bm), &probes, &scen);
+		}
+	}
+	let wants_bitmap = step(cx, "next_desired_segments", "all bitmap applied", &scen, || {
+		d.clone().next_desired_segments(50).iter().any(|s| s.segment_type == grin_core::core::pmmr::segment::SegmentType::Bitmap)
+	})
+	.unwrap_or(true);
+	cx.inc(if wants_bitmap { "state ALL-APPLIED-NOT-FINALISED not reached" } else { "state ALL-APPLIED-NOT-FINALISED reached" });
+	probe_state(cx, &d, "ALL bitmap segments applied, bitmap NOT finalised", &probes, &scen);
+	let _ = step(cx, "apply_next_segments (finalize_bitmap)", "finalising", &scen, || d.apply_next_segments());
+	probe_state(cx, &d, "bitmap finalised", &probes, &scen);
+	let _ = step(cx, "apply_next_segments", "bitmap finalised", &scen, || d.apply_next_segments());
+	let _ = step(cx, "next_desired_segments", "bitmap finalised", &scen, || d.next_desired_segments(10).len());
+	cx.out.raw(&format!("#STAT deslife scenario {} done in {} ms", scen, t0.elapsed().as_millis()));
 }
 
 /// a call that may never return (it holds no lock): run it in a thread of its own and give up after `ms`
@@ -546,7 +637,7 @@ fn zero_phase(cx: &mut Cx, work: &str) {
 		set_segment_heights(Some(hs));
 		let made = step(cx, "Chain::desegmenter", label, "zero", || dest.c().desegmenter(&hdr).ok().and_then(|a| a.read().as_ref().cloned()));
 		set_segment_heights(None);
-		let dz = match made {
+		let mut dz = match made {
 			Some(Some(d)) => d,
 			_ => continue,
 		};
@@ -555,18 +646,31 @@ fn zero_phase(cx: &mut Cx, work: &str) {
 		let mut hung: [bool; 4] = [false; 4];
 		for phase in ["fresh", "after two ticks"] {
 			if phase == "after two ticks" {
+				// the ticks are applied to the desegmenter under test itself (the first one finalises the empty bitmap)
+				let mut alive = true;
 				for _ in 0..2 {
 					let mut c = dz.clone();
-					match call_timeout(3000, move || c.apply_next_segments().is_ok()) {
-						Some(Ok(_)) => {}
+					match call_timeout(3000, move || {
+						let ok = c.apply_next_segments().is_ok();
+						(c, ok)
+					}) {
+						Some(Ok((c, _))) => dz = c,
 						Some(Err(msg)) => {
 							cx.fails += 1;
 							cx.out.raw(&format!("#ORACLE-FAIL C11 desegmenter-walk-panics state=[{}] apply_next_segments panicked: {}", label, msg.replace('\n', " ")));
+							alive = false;
 						}
 						None => {
 							cx.out.raw(&format!("#KNOWN-PROBE C11 desegmenter-zero-size-archive-header-hangs apply_next_segments does not return for a desegmenter created for [{}]", label));
+							alive = false;
 						}
 					}
+					if !alive {
+						break;
+					}
+				}
+				if !alive {
+					continue;
 				}
 			}
 			for p in &probes {
@@ -580,7 +684,7 @@ fn zero_phase(cx: &mut Cx, work: &str) {
 				let s = p.seg.clone();
 				cx.calls += 1;
 				note_call(format!("zero phase [{}] add_{}_segment", label, TREE[t]));
-				match call_timeout(3000, move || add(&mut c, s)) {
+				match call_timeout(1500, move || add(&mut c, s)) {
 					Some(Ok(res)) => {
 						let cl = class(&res);
 						cx.inc(&format!("{} ({}) | add_{} {} -> {}", label, phase, TREE[t], p.kind, cl));
@@ -594,9 +698,9 @@ fn zero_phase(cx: &mut Cx, work: &str) {
 					}
 					None => {
 						hung[t] = true;
-						cx.inc(&format!("{} ({}) | add_{} {} -> HANG (> 3 s, abandoned)", label, phase, TREE[t], p.kind));
+						cx.inc(&format!("{} ({}) | add_{} {} -> HANG (> 1.5 s, abandoned)", label, phase, TREE[t], p.kind));
 						cx.out.raw(&format!(
-							"#KNOWN-PROBE C11 desegmenter-zero-size-archive-header-hangs add_{}_segment does not return (> 3 s; Segment::validate_with computes `mmr_size - 1` for mmr_size 0, which wraps to 2^64-1 in release arithmetic, and walks that range) for a desegmenter created for [{}] (archive header height {} output_mmr_size {} kernel_mmr_size {}); state {}; handed over: a {} segment (height {}, idx {}) {}",
+							"#KNOWN-PROBE C11 desegmenter-zero-size-archive-header-hangs add_{}_segment does not return (> 1.5 s; Segment::validate_with computes `mmr_size - 1` for mmr_size 0, which wraps to 2^64-1 in release arithmetic, and walks that range) for a desegmenter created for [{}] (archive header height {} output_mmr_size {} kernel_mmr_size {}); state {}; handed over: a {} segment (height {}, idx {}) {}",
 							TREE[t], label, hdr.height, hdr.output_mmr_size, hdr.kernel_mmr_size, phase, p.kind, id.height, id.idx, seg_hex(&p.seg).chars().take(1200).collect::<String>()
 						));
 					}
@@ -631,14 +735,24 @@ fn main() {
 	let work = std::env::var("VERIF_WORK").expect("VERIF_WORK not set");
 	let mut cx = Cx { out: Out::stdout(), rng: Rng::new(seed_from_env()), thorough: tier_thorough(), stats: BTreeMap::new(), fails: 0, calls: 0 };
 	// (name, blocks, style, (bitmap, output, rangeproof, kernel) segment heights)
-	let mut scenarios: Vec<(&str, u64, &str, (u8, u8, u8, u8))> = vec![("small", 46, "small", (0, 2, 2, 1)), ("big-two-chunks", 142, "big", (0, 4, 4, 3))];
+	let mut scenarios: Vec<(&str, u64, &str, (u8, u8, u8, u8))> = vec![("small", 46, "small", (0, 2, 2, 1))];
 	if cx.thorough {
+		scenarios.push(("big-two-chunks", 142, "big", (0, 4, 4, 3)));
 		scenarios.push(("small-default-heights", 60, "small", (9, 11, 11, 11)));
-		scenarios.push(("big-three-segment-trees", 150, "big", (0, 9, 9, 8)));
 		scenarios.push(("big-one-bitmap-segment", 142, "big", (1, 5, 3, 4)));
 	}
 	for (name, n, style, hs) in scenarios {
-		life_cycle(&mut cx, &work, name, n, style, hs);
+		if let Some((kit, headers, probes, ah)) = life_cycle(&mut cx, &work, name, n, style, hs) {
+			if name == "small" {
+				// several bitmap segments: fabricated archive headers over the same header chain
+				fabricated_bitmap_life(&mut cx, &work, &kit, &headers, &probes, &ah, 2500, (0, 2, 2, 1));
+				fabricated_bitmap_life(&mut cx, &work, &kit, &headers, &probes, &ah, 1025, (0, 2, 2, 1));
+				if cx.thorough {
+					fabricated_bitmap_life(&mut cx, &work, &kit, &headers, &probes, &ah, 9000, (1, 2, 2, 1));
+					fabricated_bitmap_life(&mut cx, &work, &kit, &headers, &probes, &ah, 1024 * 5, (0, 2, 2, 1));
+				}
+			}
+		}
 	}
 	zero_phase(&mut cx, &work);
 	let stats = std::mem::take(&mut cx.stats);
